@@ -19,6 +19,10 @@ _NEG = {ast.Eq: ast.NotEq, ast.NotEq: ast.Eq, ast.In: ast.NotIn, ast.NotIn: ast.
 _POS = (ast.Eq, ast.In, ast.Is, ast.Lt, ast.LtE)
 
 
+_ORD = {ast.Lt: {"lt"}, ast.LtE: {"lt", "eq"}, ast.Gt: {"gt"}, ast.GtE: {"gt", "eq"}, ast.Eq: {"eq"}, ast.NotEq: {"lt", "gt"}}
+_FLIP = {"lt": "gt", "gt": "lt", "eq": "eq"}
+
+
 def to_form(e: ast.AST) -> Form:
     if isinstance(e, ast.BoolOp):
         return ("and" if isinstance(e.op, ast.And) else "or", [to_form(v) for v in e.values])
@@ -26,6 +30,30 @@ def to_form(e: ast.AST) -> Form:
         return ("not", to_form(e.operand))
     if isinstance(e, ast.Constant) and isinstance(e.value, bool):
         return ("const", e.value)
+    if isinstance(e, ast.Compare) and len(e.ops) == 1 and type(e.ops[0]) in _ORD:
+        # order comparisons of one pair of operands share a three-valued atom (lt / eq / gt):
+        # `a < b`, `a <= b`, `a != b`, `b > a` ... are then comparable by enumeration
+        l, r = e.left, e.comparators[0]
+        allowed = set(_ORD[type(e.ops[0])])
+
+        def intlit(x):
+            if isinstance(x, ast.Constant) and type(x.value) is int:
+                return x.value
+            if isinstance(x, ast.UnaryOp) and isinstance(x.op, ast.USub) and isinstance(x.operand, ast.Constant) and type(x.operand.value) is int:
+                return -x.operand.value
+            return None
+
+        # integer quantity against an integer literal: one integer-valued atom per quantity,
+        # so that `len(x) > 1` and `len(x) > 2` (or `!= 1`) are comparable by enumeration
+        if intlit(r) is not None and intlit(l) is None:
+            return ("num", "#" + ast.unparse(l), frozenset(allowed), intlit(r))
+        if intlit(l) is not None and intlit(r) is None:
+            return ("num", "#" + ast.unparse(r), frozenset(_FLIP[x] for x in allowed), intlit(l))
+        a, b = ast.unparse(l), ast.unparse(r)
+        if b < a:
+            a, b = b, a
+            allowed = {_FLIP[x] for x in allowed}
+        return ("cmp", f"{a} <=> {b}", frozenset(allowed))
     if isinstance(e, ast.Compare) and len(e.ops) == 1 and type(e.ops[0]) in _NEG and not isinstance(e.ops[0], _POS):
         # normalise a negative comparison to not(positive)
         pos = ast.Compare(left=e.left, ops=[_NEG[type(e.ops[0])]()], comparators=e.comparators)
@@ -39,7 +67,7 @@ def parse(src: str) -> Form:
 
 def atoms(f: Form) -> Set[str]:
     k = f[0]
-    if k == "atom":
+    if k in ("atom", "cmp", "num"):
         return {f[1]}
     if k in ("and", "or"):
         out: Set[str] = set()
@@ -55,6 +83,11 @@ def ev(f: Form, env: Dict[str, bool]) -> bool:
     k = f[0]
     if k == "atom":
         return env[f[1]]
+    if k == "cmp":
+        return env[f[1]] in f[2]
+    if k == "num":
+        v = env[f[1]]
+        return ("lt" if v < f[3] else "eq" if v == f[3] else "gt") in f[2]
     if k == "const":
         return f[1]
     if k == "not":
@@ -70,7 +103,28 @@ def implies(test: Form, spec: Form, max_atoms: int = 14) -> Tuple[bool, Optional
     names = sorted(atoms(test) | atoms(spec))
     if len(names) > max_atoms:
         raise ValueError("too many atoms")
-    for vals in itertools.product((False, True), repeat=len(names)):
+    lits: Dict[str, Set[int]] = {}
+
+    def collect(f):
+        if f[0] == "num":
+            lits.setdefault(f[1], set()).add(f[3])
+        elif f[0] in ("and", "or"):
+            for x in f[1]:
+                collect(x)
+        elif f[0] == "not":
+            collect(f[1])
+
+    collect(test)
+    collect(spec)
+    doms = []
+    for n in names:
+        if n in lits:
+            doms.append(tuple(sorted({c + d for c in lits[n] for d in (-1, 0, 1)})))
+        elif " <=> " in n:
+            doms.append(("lt", "eq", "gt"))
+        else:
+            doms.append((False, True))
+    for vals in itertools.product(*doms):
         env = dict(zip(names, vals))
         if ev(test, env) and not ev(spec, env):
             return False, env
